@@ -911,7 +911,9 @@ func (fs *fileStore) iterate(outFields []core.Field, ms *memstore, okayToReuseBu
 				}
 			}
 
-			var more bool
+			// a row that contributes none of the requested columns is skipped, it
+			// does not end the iteration
+			more := true
 			if includesAtLeastOneColumn {
 				more, err = onRow(key, columns, raw)
 				if err != nil {
